@@ -26,6 +26,8 @@ def gen(tier, rng):
         out.append("faultsweep %s %s %s %s" % (m, pol, hx(d), s))
         # the fault-free run is also compared with the model
         out.append("run %s %s %s %s" % (m, pol, hx(d), s))
+    for (m, d, sc) in scripts.leaf_battery(rng, 3000 if tier == "quick" else 30000):
+        out.append("faultsweep %s %s %s %s" % (m, rng.choice(["stingy", "chunk1", "plus2"]), hx(d), sc))
     return out
 
 def relational(reqs, answers):
